@@ -85,6 +85,26 @@ def _exact_shift(cx, u, fl, e, strict=True):
     return True, None
 
 
+def _norm_if(e):
+    """('if', cond, a, b) with the condition in one spelling: negations and `>=`/`>`/`<=` folded into `<` by mirroring the operands
+    and / or swapping the arms (integer comparisons: a <= b  <=>  !(b < a))"""
+    if not (isinstance(e, tuple) and e and e[0] == "if" and len(e) == 4):
+        return e
+    c, a, b = e[1], e[2], e[3]
+    for _ in range(4):
+        if c[0] == "un" and c[1] == "Not":
+            c, a, b = c[2], b, a
+        elif c[0] == "bin" and c[1] == "Gt":
+            c = ("bin", "Lt", c[3], c[2])
+        elif c[0] == "bin" and c[1] == "Ge":
+            c = ("bin", "Le", c[3], c[2])
+        elif c[0] == "bin" and c[1] == "Le":
+            c, a, b = ("bin", "Lt", c[3], c[2]), b, a
+        else:
+            break
+    return ("if", c, a, b)
+
+
 def tfdt_value(cx, u):
     """what flush_segment hands the segment builder as base decode time: (depends on the own segment?, text, resolved expression, body)"""
     fl = FM + "::flush_segment"
@@ -199,7 +219,7 @@ def check(prog, run):
     d = got.get("duration")
     ok = False
     if d and d[0] == "be":
-        e = d[1]
+        e = _norm_if(d[1])
         nxt = ("field", ("index", S, ("bin", "Add", ix, ("lit", 1))), "dts")
         want_then = ("cast", "u32", ("bin", "Sub", nxt, ("field", el, "dts")))
         ok = e[0] == "if" and e[1] == ("bin", "Lt", ("bin", "Add", ix, ("lit", 1)), ("len", S)) and e[2] == want_then
@@ -209,8 +229,9 @@ def check(prog, run):
     run.check(ok, "R1", "composition-offset", "cts = (pts as i64 - dts as i64) as i32", "trun composition offset is %s" % (L.show(c)[:200] if c else "absent"))
     f = got.get("flags")
     ok = False
-    if f and f[0] == "be" and f[1][0] == "if" and f[1][1] == ("field", el, "is_sync") and f[1][2][0] == "lit" and f[1][3][0] == "lit":
-        sync_c, non_c = f[1][2][1], f[1][3][1]
+    fi = _norm_if(f[1]) if f and f[0] == "be" else None
+    if fi and fi[0] == "if" and fi[1] == ("field", el, "is_sync") and fi[2][0] == "lit" and fi[3][0] == "lit":
+        sync_c, non_c = fi[2][1], fi[3][1]
         ok = (sync_c & 0x10000) == 0 and (non_c & 0x10000) != 0
     run.check(ok, "R1", "sample-flags", "is_non_sync bit clear on the sync arm, set on the other", "trun sample flags are %s" % (L.show(f)[:200] if f else "absent"))
     z = got.get("size")
